@@ -20,7 +20,7 @@ func init() { register("C20", c20) }
 func c20(e *Env) {
 	c := e.C
 	c.Level = "proof"
-	c.Explanation = "Every leaf function of every metric type (parser, printer, validity predicate, weight accessor, scope predicates) is translated into a finite-map expression over the package-level tables (syntax-directed, loop-free fragment; anything else is UNDECIDED) and that expression is tabulated over the complete abstract domain of its parameters (every declared constant, plus one out-of-range representative; for parsers every string occurring in any table they read plus 'any other string'). The tabulated maps are compared cell by cell with the specification tables in checker/internal/spec. The run is exhaustive over those finite domains."
+	c.Explanation = "Every leaf function of every metric type (parser, printer, validity predicate, weight accessor, scope predicates) is translated into a finite-map expression over the package-level tables (syntax-directed, loop-free fragment; anything else is UNDECIDED) and that expression is tabulated over the complete abstract domain of its parameters (every declared constant, plus one out-of-range representative; for parsers every string occurring in any table they read plus 'any other string'). The tabulated maps are compared cell by cell with the specification tables in checker/internal/spec. The run is exhaustive over those finite domains. GetVersion, the exported parser of the CVSS:<label> prefix, is decided on all of its paths: it yields the label parser's value for the second of exactly two ':'-separated parts whose first is CVSS, and the unknown version with an error for every other string (version-prefix)."
 	c.Trusted = []string{"Go map/== semantics as encoded in the summary denotation (facts/summary.go)", "go/types constant folding", "the specification tables in checker/internal/spec/spec.go (hand-transcribed from FIRST)", "exported tables are not written by code outside this module"}
 	c.Assumptions = []string{"eleven v3 tables are exported identifiers; a client program could overwrite them - outside what an analysis of /repo can see", "the tables are immutable after package initialisation (decided by C15/C16 rule E2, re-checked here as table-immutability)"}
 	v3, v2 := e.levels("struct-layout")
@@ -40,6 +40,13 @@ func c20(e *Env) {
 		}
 	}
 	e.versionTables()
+	// the exported parser of the "CVSS:<label>" prefix: every path of it (all are enumerated) yields the label
+	// parser's value of the second of exactly two ':'-parts whose first is "CVSS", and unknown with an error otherwise
+	if gvf := e.P.LookupFunc(spec.V3.Pkg, "GetVersion"); gvf != nil {
+		e.getVersionShape(gvf)
+	} else {
+		c.Undecided("version-prefix", "v3/metric.GetVersion", "", "the exported prefix parser was not found")
+	}
 	e.tableImmutability("table-immutability", "v3/metric", "v2/metric", "v3/version")
 	c.Analysed["metric_fields"] = nf
 	c.Analysed["tables"] = len(e.F.AllTabs)
